@@ -23,15 +23,15 @@ def gen_script(rng, nops):
         elif c == 'delmgr':
             m = rng.pick(alive_m); alive_m.remove(m); lines.append('delmgr %d' % m)
         elif c == 'sub':
-            m_ = rng.pick(alive_m); lines.append('sub %d %d' % (m_, rng.below(4))); recvs.append(nr); where[nr] = m_; nr += 1
+            m_ = rng.pick(alive_m); lines.append('sub %d %d' % (m_, rng.below(6))); recvs.append(nr); where[nr] = m_; nr += 1
         elif c == 'unsub':
             r_ = rng.pick(recvs); lines.append('unsub %d' % r_); where[r_] = None
         elif c == 'delrecv':
             r = rng.pick(recvs); recvs.remove(r); lines.append('delrecv %d' % r)
         elif c == 'post':
-            lines.append('post %d %d' % (rng.pick(alive_m), rng.below(4)))
+            lines.append('post %d %d' % (rng.pick(alive_m), rng.below(6)))
     for m in alive_m:
-        for t in range(4):
+        for t in range(6):
             lines.append('post %d %d' % (m, t))
     return lines
 
@@ -75,7 +75,7 @@ def run(tier, seed, replay=None):
             if b['op'].startswith('post') and len((b['tags'].get('R') or ['R'])[0].split()) > 1:
                 nontriv.add((name, b['n']))
     cov.update({'evaluations': len(scripts), 'distinct_nontrivial': len(nontriv), 'posts': posts, 'ops': sum(len(v) for v in sd.values()),
-                'rule': 'random scripts over managers/receivers/4 event types; non-trivial = a post that delivered to at least one receiver',
+                'rule': 'random scripts over managers/receivers/6 event types (two with names that are a prefix of one another); non-trivial = a post that delivered to at least one receiver',
                 'tierA_failures': len(fa), 'tierB_divergences': len(div), 'samples': [scripts[0][1], scripts[-1][1][:30]]})
     violations = []
     if fa:
